@@ -41,6 +41,21 @@ CHECKS["C33"] = dict(
     design_ref="§37",
 )
 
+CHECKS["C20"] = dict(
+    category="proof",
+    text=("Coq theorem C20_mask_spec proves for every directive list and violation list (all interleavings, any number of directives) that the "
+          "model of IgnoreMask.ignore_masked_violations keeps exactly the violations that no plain directive on their line names (or names no "
+          "rule) and whose most recent covering range directive at or before their line is not a disable; C20_falsy_covers_refuted keeps the "
+          "repaired defect (empty rule tuple covering everything) as a regression witness. Tied by exhaustive small-scope correspondence with "
+          "the real IgnoreMask (45 directive forms x 9 violations, <=2 directives x <=1 violations, <=1 x 2, random 2-4 x 2-3) including the "
+          "`used` flags; an independent oracle in the property's words runs on the implementation's output; comment parsing and end-to-end "
+          "files (incl. parse failures, disable_noqa, disable_noqa_except) are checked against by-construction expectations."),
+    note=("Trusted: Coq kernel, hand model Model/NoQa.v (mask + used bookkeeping), stability of sorted(). _parse_noqa / fnmatch expansion is "
+          "not modelled in Coq (oracle-checked only); `used` for enable directives is compared model-vs-code but not specified. No axioms."),
+    technique="Coq proof over hand model + exhaustive small-scope correspondence + property oracle on implementation output",
+    design_ref="§24",
+)
+
 NOT_YET = "no check built yet in this round (planned: see DESIGN.md section for this property)"
 
 
